@@ -705,11 +705,16 @@ class Request(interfaces.Request, BaseUnicastRequest):
 
         first_event = yield None
 
+        # The application may have cancelled the response future while its
+        # done callback (which stops the interest in the pipe) has not run
+        # yet; an event arriving in that window has nobody to go to.
         if first_event.message is not None:
             self._add_response_properties(first_event.message, self._pipe.request)
-            self.response.set_result(first_event.message)
+            if not self.response.cancelled():
+                self.response.set_result(first_event.message)
         else:
-            self.response.set_exception(first_event.exception)
+            if not self.response.cancelled():
+                self.response.set_exception(first_event.exception)
             if not isinstance(first_event.exception, error.Error):
                 self.log.warning(
                     "An exception that is not an aiocoap Error was raised "
